@@ -166,6 +166,7 @@ class Interp:
         self.dirty = set()       # field arrays stored by a completed loop
         self.oob = []            # (node, array, axis, index, shape)
         self.symreads = []       # (array name, index) reads in symbolic loops
+        self.symstores = []      # (array name, index, value, ctx, node)
 
     # ------------------------------------------------------------------ util
     def err(self, node, msg):
@@ -209,6 +210,15 @@ class Interp:
                 if s in self.ivals:
                     raise Unsupported(f'nested symbolic interval for {s}')
         return self._dimsign(lo, True), self._dimsign(hi, False)
+
+    def bounds_in(self, a, ctx):
+        """bounds of `a` under the intervals recorded in a store context."""
+        saved = self.ivals
+        self.ivals = ctx['ivals']
+        try:
+            return self.bounds(a)
+        finally:
+            self.ivals = saved
 
     def decide(self, op, a, b):
         """Three-valued comparison of two Aff."""
@@ -307,6 +317,14 @@ class Interp:
         j = self.norm_index(j, arr.length, node)
         if any(sy in self.ivals for sy in j.t):
             self.symreads.append((arr.name, j))
+        try:
+            mn, _ = self.bounds(j)
+            _, mx = self.bounds(j - arr.length + 1)
+        except Unsupported:
+            mn = mx = None
+        if (mn is not None and mn < 0) or (mx is not None and mx > 0):
+            self.oob.append((node, arr.name, 0, j, arr.length, self.ctx()))
+            return Lin.coef(Rat.atom(('@oob:' + arr.name, idx_key((j,)))))
         for sj, val in reversed(arr.pending):
             if (sj - j).is_const():
                 if (sj - j).c == 0:
@@ -376,6 +394,7 @@ class Interp:
 
     def write_sym(self, arr, j, val, node):
         j = self.norm_index(j, arr.length, node)
+        self.symstores.append((arr.name, j, val, self.ctx(), node))
         if not any(sy in self.ivals for sy in j.t):
             arr.rules = arr.rules + [Rule(j, j, (lambda _j, v=val: v),
                                           'element')]
@@ -970,10 +989,13 @@ class Interp:
                 dict(self.ivals), dict(self.classes), len(self.stores),
                 len(self.calls), dict(self.mem), dict(self.dims),
                 [(set(f.written), set(f.early)) for f in self.frames],
-                set(self.dirty), len(self.oob), len(self.symreads))
+                set(self.dirty), len(self.oob), len(self.symreads),
+                len(self.symstores))
 
     def restore(self, snap, env):
-        e, objs, iv, cl, ns, nc, mem, dims, frs, dirty, noob, nsr = snap
+        (e, objs, iv, cl, ns, nc, mem, dims, frs, dirty, noob, nsr,
+         nss) = snap
+        del self.symstores[nss:]
         self.dirty = dirty
         del self.oob[noob:]
         del self.symreads[nsr:]
